@@ -283,7 +283,7 @@ class Agent:
     def c_handles(self):
         return sorted(self.h)
 
-    def c_spawn(self, child, handles, addr, proc_cls):
+    def c_spawn(self, child, handles, addr, proc_cls, hold=False):
         """start a child client process with proxies as Process arguments (they are un-pickled
         while the spawned child bootstraps)"""
         if proc_cls == 'mpservice':
@@ -292,7 +292,8 @@ class Agent:
             import multiprocessing
             Process = multiprocessing.get_context('spawn').Process
         # handles: list of [name in this client, name in the child]
-        p = Process(target=client_main, args=(child, addr, self.manager, [(hc, self.h[hp]) for hp, hc in handles]))
+        p = Process(target=client_main,
+                    args=(child, addr, self.manager, [(hc, self.h[hp]) for hp, hc in handles], hold))
         p.start()
         self.children[child] = p
         return None
@@ -307,11 +308,19 @@ class Agent:
         return None
 
 
-def client_main(name, addr, manager, proxies):
-    """a client process: connect to the director, execute its commands until 'exit'"""
+_HELD = []
+
+
+def client_main(name, addr, manager, proxies, hold=False):
+    """a client process: connect to the director, execute its commands until 'exit'.
+    `hold`: keep the agent (and with it every proxy it still has) referenced from a module global,
+    so that the proxies are still alive when the process exits (only exit handlers can then give
+    their references back); otherwise they die with this function's frame."""
     from multiprocessing.connection import Client
     _register()
     ag = Agent(name, manager)
+    if hold:
+        _HELD.append(ag)
     info = []
     p = None
     for h, p in proxies:
@@ -398,7 +407,7 @@ class Director:
             return [out[k] for k in range(len(cmd[1]))]
         if cmd[0] == 'spawn':
             # ['spawn', child, handles, proc_cls]
-            who_agent_cmd = ['spawn', cmd[1], cmd[2], self.addr, cmd[3]]
+            who_agent_cmd = ['spawn', cmd[1], cmd[2], self.addr, cmd[3], bool(cmd[4]) if len(cmd) > 4 else False]
             r = self._do(who, who_agent_cmd)
             if isinstance(r, dict) and ('$raised' in r or '$hang' in r):
                 return r
